@@ -37,6 +37,7 @@ func c09(r *core.Run) {
 	r.Rule("S3", "subscription shape: every subscription passes the in-channel; the queue variant is used iff the queue group is non-empty with that group; each subscription loop skips patterns covered by another pattern", 6)
 	r.Rule("S4", "errors: a failed subscription returns its error from subscribe, and serve tests subscribe's result", 3)
 	r.Rule("S5", "ownership predicate: the handler kinds read by the default-ownership predicates are exactly the kinds the dispatcher serves (resources: Get, Call, Auth, New; access: Access)", 2)
+	r.Rule("S8", "kind detection is exhaustive: in the trie traversal behind Mux.Contains the predicate's result is only ever branched on - a false answer for one node never ends the traversal (it is never returned or merged into the result), so a handler kind registered anywhere in the trie is found", 1)
 	r.Rule("S6", "possibly-empty path: the service path is used in a subject or pattern only through mergePattern or under a non-empty test", 5)
 	r.Rule("S7", "reconnect re-announces: the reconnect handler calls ResetAll and is installed unconditionally by both Serve entry points (only the *nats.Conn type test may guard it)", 3)
 
@@ -110,10 +111,21 @@ func c09(r *core.Run) {
 		}
 		// helper of the defaulting function is fine; anything else is not
 		ok := n == core.FuncName(deflt)
+		for _, h := range p.Helpers(deflt) {
+			if core.FuncName(h) == n {
+				ok = true
+			}
+		}
 		r.Check(ok, "S1", n, "writes-ownership-lists", "-", "defaulting function", "ownership lists are written by "+n+": subscriptions and reset could be built from different lists")
 	}
+	helperOf := map[string]bool{}
+	for _, top := range []*ssa.Function{deflt, sub, resetAll} {
+		for _, h := range p.Helpers(top) {
+			helperOf[core.FuncName(h)] = true
+		}
+	}
 	for n := range readers {
-		ok := n == core.FuncName(deflt) || n == core.FuncName(sub) || n == core.FuncName(resetAll)
+		ok := n == core.FuncName(deflt) || n == core.FuncName(sub) || n == core.FuncName(resetAll) || helperOf[n]
 		r.Check(ok, "S1", n, "reads-ownership-lists", "-", "one of defaulting / subscribe / ResetAll", "ownership lists are read by "+n)
 	}
 	// defaulting replaces only a nil list: an explicitly empty list means "own nothing of this kind"
@@ -149,8 +161,14 @@ func c09(r *core.Run) {
 		}
 		good := dc != nil
 		if good {
-			for _, ac := range core.FieldAccesses([]*ssa.Function{fn}, func(f core.Field) bool { return f == resF || f == accF }) {
-				if !core.Dominates(dc, ac.Instr) {
+			var scope []*ssa.Function
+			for _, h := range p.Helpers(fn) {
+				if !p.Within(h, deflt) {
+					scope = append(scope, h)
+				}
+			}
+			for _, ac := range core.FieldAccesses(scope, func(f core.Field) bool { return f == resF || f == accF }) {
+				if !p.DominatesIn(fn, dc, ac.Instr) {
 					good = false
 				}
 			}
@@ -196,7 +214,13 @@ func c09(r *core.Run) {
 		return ""
 	}
 	nConc := 0
-	for _, b := range sub.Blocks {
+	var subBlocks []*ssa.BasicBlock
+	for _, h := range p.Helpers(sub) {
+		if !p.Within(h, deflt) {
+			subBlocks = append(subBlocks, h.Blocks...)
+		}
+	}
+	for _, b := range subBlocks {
 		for _, in := range b.Instrs {
 			bo, ok := in.(*ssa.BinOp)
 			if !ok || bo.Op != token.ADD {
@@ -215,7 +239,7 @@ func c09(r *core.Run) {
 		}
 	}
 	// method wildcard never after '>'
-	for _, b := range sub.Blocks {
+	for _, b := range subBlocks {
 		for _, in := range b.Instrs {
 			bo, ok := in.(*ssa.BinOp)
 			if !ok || bo.Op != token.ADD {
@@ -447,6 +471,64 @@ func c09(r *core.Run) {
 	r.Check(u1 == u2 && hasAccessOnly && len(predFields) == 2, "S5", core.FuncName(deflt), "predicate-kinds==dispatched-kinds", p.Pos(deflt.Pos()), "default ownership considers {"+u1+"}, the dispatcher serves {"+u2+"}", "default ownership considers {"+u1+"} but the dispatcher serves {"+u2+"}: a service with only the missing kind would own nothing and subscribe to nothing")
 	r.OKTrivial("S5", core.FuncName(deflt), "access-predicate=={Access}", p.Pos(deflt.Pos()), fmt.Sprintf("predicates: %v", core.SortedKeys(predFields)))
 
+	// ---- S8 --------------------------------------------------------------
+	if cm := methodNamed(p, "", "Mux", "Contains"); cm != nil {
+		seen := map[*ssa.Function]bool{}
+		var tree []*ssa.Function
+		var walk func(f *ssa.Function)
+		walk = func(f *ssa.Function) {
+			if f == nil || seen[f] || len(f.Blocks) == 0 || f.Pkg != cm.Pkg {
+				return
+			}
+			seen[f] = true
+			tree = append(tree, f)
+			for _, c := range core.Calls(f) {
+				walk(c.Common().StaticCallee())
+			}
+		}
+		walk(cm)
+		nPred := 0
+		for _, fn := range tree {
+			for _, c := range core.Calls(fn) {
+				if !core.IsDynamic(c) {
+					continue
+				}
+				prm, ok := c.Common().Value.(*ssa.Parameter)
+				if !ok {
+					continue
+				}
+				sg, ok := prm.Type().Underlying().(*types.Signature)
+				if !ok || sg.Params().Len() != 1 || core.TypeName(sg.Params().At(0).Type()) != "Handler" {
+					continue
+				}
+				nPred++
+				bad := ""
+				var chk func(v ssa.Value, d int)
+				chk = func(v ssa.Value, d int) {
+					if v == nil || v.Referrers() == nil || d > 3 {
+						return
+					}
+					for _, rf := range *v.Referrers() {
+						switch x := rf.(type) {
+						case *ssa.If, *ssa.DebugRef:
+						case *ssa.UnOp:
+							chk(x, d+1)
+						default:
+							bad = fmt.Sprintf("%T at %s", rf, p.InstrPos(rf))
+						}
+					}
+				}
+				chk(c.Value(), 0)
+				r.Check(bad == "", "S8", core.FuncName(fn), "predicate-result-only-branched-on", p.InstrPos(c), "a node whose handler does not satisfy the predicate does not end the search", "the predicate's answer for one node is used as the traversal's result ("+bad+"): when that node's handler is of another kind the nodes below it are never examined, so the service does not own (subscribe to, announce) a kind that is registered deeper in the trie")
+			}
+		}
+		if nPred == 0 {
+			r.Bad("S8", core.FuncName(cm), "predicate-is-called", p.Pos(cm.Pos()), "the traversal behind Mux.Contains never calls its predicate")
+		}
+	} else {
+		r.Unres("S8", "Mux.Contains", "missing")
+	}
+
 	// ---- S6 --------------------------------------------------------------
 	pathF, okp := accessorField(p, "", "Mux", "Path")
 	if !okp {
@@ -461,14 +543,29 @@ func c09(r *core.Run) {
 		if v.Referrers() == nil {
 			continue
 		}
-		nonEmpty := false
-		for _, ed := range dominatingEdges(ac.Instr) {
-			d := describeCond(ed)
-			if d == pathF.String()+`!=""` || strings.HasPrefix(d, "len ") && strings.Contains(d, pathF.String()) && (strings.HasSuffix(d, ">0") || strings.HasSuffix(d, "!=0")) {
-				nonEmpty = true
+		nonEmptyAt := func(use ssa.Instruction) bool {
+			for _, ed := range dominatingEdges(use) {
+				d := describeCond(ed)
+				if d == pathF.String()+`!=""` || strings.HasPrefix(d, "len ") && strings.Contains(d, pathF.String()) && (strings.HasSuffix(d, ">0") || strings.HasSuffix(d, "!=0")) {
+					return true
+				}
+				// the very value loaded here was compared with "" (path := m.path; if path == "" {...})
+				ci := core.Cond(ed.If.Cond)
+				if ci.Kind == "constcmp" && ci.X == v && ci.Const != nil && ci.Const.ExactString() == `""` {
+					truth := ed.Succ == 0
+					if ci.Negate {
+						truth = !truth
+					}
+					if (ci.Op == token.NEQ) == truth {
+						return true
+					}
+				}
 			}
+			return false
 		}
+		nonEmpty := nonEmptyAt(ac.Instr)
 		for _, rf := range *v.Referrers() {
+			nonEmpty := nonEmpty || nonEmptyAt(rf)
 			fn := core.FuncName(ac.Fn)
 			switch x := rf.(type) {
 			case *ssa.Call:
@@ -746,4 +843,67 @@ func contentDependent(v ssa.Value, depth int) bool {
 		return true
 	}
 	return isStr(v.Type())
+}
+
+// coveringRule emits, for every place where subscribe (or a private helper)
+// makes a plain subscription, the obligation that the subscribing loop skips
+// subjects matched by another subject of the same list - judged on the very
+// subjects that are subscribed (after the method wildcard was appended).
+// Shared by C09.S3 (which has its own, richer copy) and C04.R8.
+func coveringRule(r *core.Run, rule string) {
+	p := r.P
+	sub := subscribeFn(p)
+	if sub == nil {
+		r.Unres(rule, "subscribe", "cannot resolve the subscribing function")
+		return
+	}
+	root := p.FuncsOfPkg("")
+	mayMatch := mayExec(root, func(in ssa.Instruction) bool {
+		c, ok := in.(ssa.CallInstruction)
+		if !ok {
+			return false
+		}
+		cal := c.Common().StaticCallee()
+		return cal != nil && cal.Name() == "Matches" && cal.Signature.Recv() != nil && core.TypeName(cal.Signature.Recv().Type()) == "Pattern"
+	})
+	var matches []ssa.CallInstruction
+	for _, c := range core.Calls(sub) {
+		if cal := c.Common().StaticCallee(); cal != nil && (mayMatch[cal] || (cal.Name() == "Matches" && cal.Signature.Recv() != nil && core.TypeName(cal.Signature.Recv().Type()) == "Pattern")) {
+			matches = append(matches, c)
+		}
+	}
+	n := 0
+	for _, f2 := range p.Helpers(sub) {
+		for _, c := range core.Calls(f2) {
+			if !c.Common().IsInvoke() || c.Common().Method.Name() != "ChanSubscribe" {
+				continue
+			}
+			for _, site := range p.Lift(c, sub) {
+				subj := c.Common().Args[0]
+				if sc, ok := site.(ssa.CallInstruction); ok && site != ssa.Instruction(c) && len(sc.Common().Args) > 1 {
+					subj = sc.Common().Args[len(sc.Common().Args)-1]
+					for _, a := range sc.Common().Args {
+						if types.TypeString(a.Type(), nil) == "string" {
+							subj = a
+						}
+					}
+				}
+				if strings.Contains(valDesc(subj), "access.") || subjectHasPrefix(subj, "access.") {
+					continue // the access loop is C09's (known finding there)
+				}
+				n++
+				lh := nearestLoopHead(sub, site.Block())
+				filtered := false
+				for _, m := range matches {
+					if lh != nil && (lh == m.Block() || lh.Dominates(m.Block())) && core.Reaches(m, site) {
+						filtered = true
+					}
+				}
+				r.Check(filtered, rule, core.FuncName(sub), "resource-loop:covered-subjects-skipped", p.InstrPos(site), "the loop that subscribes skips a subject matched by another subject of the list", "the get/call/auth subscriptions are made without skipping, in the subscribing loop, subjects covered by another subscribed subject (e.g. call.<name>.* and call.<name>.>): such a request is delivered twice, handled twice and answered twice")
+			}
+		}
+	}
+	if n == 0 {
+		r.Bad(rule, core.FuncName(sub), "has-resource-subscriptions", p.Pos(sub.Pos()), "no get/call/auth subscription site found (rule went vacuous)")
+	}
 }
